@@ -48,8 +48,30 @@ def expr_end_semantics(repo):
             raise AnalysisError('util.get_expr_end_visitor vanished')
         out = []
         shapes = []
+        from . import grammar as G
+        done = set()
         for cls in ('Tuple', 'BinOp', 'Call', 'Dict', 'IfExp', 'Compare'):
             shapes.append((cls, ShapeBuilder({}, 'max').node(cls, 'node')))
+            done.add(cls)
+        # every other expression class of the grammar, as the whole value (a visitor method of its own for any of them - an
+        # f-string, a lambda, a subscript - must still end at the last node visited inside it)
+        for cls in sorted(G.NODE_FIELDS):
+            if G.SORT_OF.get(cls) != 'expr' or cls in done or cls in ('Constant', 'Name'):
+                continue
+            try:
+                root = ShapeBuilder({}, 'max').node(cls, 'node')
+            except Exception:
+                continue
+            if not any(isinstance(v, (SymNode, list)) and v for v in root.fields.values()):
+                continue
+            shapes.append((cls, root))
+        # an f-string reading a name: f"text{x}"
+        js = SymNode('JoinedStr', 'node', 'expr', {'values': [
+            SymNode('Constant', 'node.values[0]', 'expr', {'value': 'text', 'kind': None}),
+            SymNode('FormattedValue', 'node.values[1]', 'expr', {
+                'value': SymNode('Name', 'node.values[1].value', 'expr', {'id': 'x', 'ctx': SymNode('Load', 'node.values[1].value.ctx', 'expr_context')}),
+                'conversion': -1, 'format_spec': None})]})
+        shapes.append(('f-string reading a name', js))
         # a literal as the last node (visit_Constant is a method of its own)
         t = ShapeBuilder({}, 'max').node('Tuple', 'node')
         t.fields['elts'][-1] = SymNode('Constant', 'node.elts[1]', 'expr', {'value': 'text', 'kind': None})
